@@ -6,6 +6,26 @@ Import ListNotations.
 (** the model of the code as it is meant to be (with the C01 repair of the callback loop) *)
 Definition run_show (p : program) : string := show_program true p.
 
-(** programs whose callbacks run kernel operations (scripts) are evaluated on the re-entrant kernel DeferredKR *)
-Definition show_any (c : program + rprogram) : string :=
-  match c with inl p => run_show p | inr p => show_rprogram p end.
+(** the script-free kernel program as a program of the re-entrant kernel *)
+Definition embed_beh (b : option beh) : option rbeh := match b with Some x => Some (RB [] x) | None => None end.
+Definition embed_op (o : op) : rop :=
+  match o with
+  | OAdd d cb eb => ROAdd d (embed_beh cb) (embed_beh eb)
+  | OCallback d z => ROCallback d z
+  | OErrback d e => ROErrback d e
+  | OPause d => ROPause d
+  | OUnpause d => ROUnpause d
+  | OCancel d => ROCancel d
+  end.
+Definition embed (p : program) : rprogram := (fst p, map embed_op (snd p)).
+
+(** programs whose callbacks run kernel operations (scripts) are evaluated on the re-entrant kernel DeferredKR;
+    script-free ones on DeferredK, and when the flag is set ALSO on DeferredKR: the two kernels must agree *)
+Definition show_any (c : (bool * program) + rprogram) : string :=
+  match c with
+  | inl (both, p) =>
+      let a := run_show p in
+      if both then (if String.eqb a (show_rprogram (embed p)) then a else "KERNELS-DISAGREE:" ++ show_rprogram (embed p))
+      else a
+  | inr p => show_rprogram p
+  end.
